@@ -210,7 +210,10 @@ def gen_history(seed, tier, prop, kinds_allowed):
         m = rng.stream(seed, 'mwide2').randint(17, 35)     # more samples than worker threads: prange chunks hold several iterations
     # amplitudes up to the full range of the storage dtype: arithmetic done in the narrow trace dtype (a wrapped square, a truncated
     # sum) only shows on large sample values; exact_ok() below lowers the amplitude again where the sums would stop being exact
-    full = {'uint8': 255, 'int8': 254, 'int16': 4094, 'float32': 1023, 'float64': 4095}[tdtype]
+    xd = rng.stream(seed, 'xdtype')
+    if regime == 'exact' and not numba_kind and xd.random() < 0.12:
+        tdtype = scn['tdtype'] = xd.choice(['uint16', 'int32', 'int64', 'uint32'])     # wider integer acquisitions (numpy-backed kinds: no extra compile)
+    full = {'uint8': 255, 'int8': 254, 'int16': 4094, 'float32': 1023, 'float64': 4095, 'uint16': 4095, 'int32': 4094, 'int64': 4094, 'uint32': 4095}[tdtype]
     scn['amp'] = r.choice([1, 3, 15, 16, full, full]) if regime == 'exact' else 0
     if tdtype == 'int8' and scn['amp'] == 16:
         scn['amp'] = 15
@@ -224,6 +227,9 @@ def gen_history(seed, tier, prop, kinds_allowed):
     else:
         wshape = _weighted(r, [([r.randint(1, 4)], 6), ([r.randint(1, 3), r.randint(1, 3)], 2),
                                ([2, r.randint(1, 2), 2], 1 if thorough else 0.3), ([16], 0.4), ([4, 4], 0.4)])     # incl. a 16-byte cipher state
+    ww = rng.stream(seed, 'wwide')
+    if kind in ('cpa', 'cpaalt', 'dpa') and regime == 'exact' and ww.random() < 0.06:
+        wshape = [ww.randint(17, 300)]       # tens to hundreds of data words (between the small layouts and the 4096-word attack layout)
     if kind in kinds.PARTITIONED and regime == 'exact' and rng.stream(seed, 'attacklayout').random() < (0.12 if prop == 'C11' else 0.03):
         # 256 guesses x 16 bytes: the mask of the matmul kernel has rows x words x classes entries (millions for a batch of a few hundred rows)
         wshape = rng.stream(seed, 'attacklayout2').choice([[256, 16], [256, 16], [128, 16], [64, 16]])
